@@ -529,8 +529,14 @@ def spec_classes(tr, b, parsed_by_data):
                 known.setdefault(rid, set()).add(ttl)
     t_last, t_first, c = asm["last_now"], asm["first_now"], b["t"]
     legacy = asm["port"] != 5353
-    nq0 = pkts[0]["nq"]
-    q0 = pkts[0]["q0type"]
+    # Reading (Props/C12.lean, header): a truncated train is ONE query; it has arrived when its last packet has.  "A query consisting of a
+    # single SRV, A, AAAA or NSEC question" is therefore judged on all questions of all packets of the train -- the code looks at the
+    # first packet only (`msgs[0]._questions`); where the two differ the oracle follows the sentence and reports the finding
+    imm = (33, 1, 28, 47)
+    nq_all = sum(p["nq"] for p in pkts)
+    single = next((p["q0type"] for p in pkts if p["nq"] == 1), None) if nq_all == 1 else None
+    spec_now = single in imm
+    code_now = pkts[0]["nq"] == 1 and pkts[0]["q0type"] in imm
     out = []  # (rid, class, info)
     for p in pkts:
         for qu, cands in p["items"]:
@@ -563,11 +569,12 @@ def spec_classes(tr, b, parsed_by_data):
                     cls = "prot"
                 elif free:
                     cls = "free"
-                elif nq0 == 1 and q0 in (33, 1, 28, 47):
+                elif spec_now:
                     cls = "now"
                 else:
                     cls = "agg"
-                out.append((rid, cls, dict(seen=s, held_sighting=held_sighting, in1s=in1s, probe=probe, dontcare=dontcare, qu=qu, t_first=t_first, t_last=t_last, c=c)))
+                out.append((rid, cls, dict(seen=s, held_sighting=held_sighting, in1s=in1s, probe=probe, dontcare=dontcare, qu=qu, t_first=t_first, t_last=t_last, c=c,
+                                           adds=list(_adds), seen_all=seen, npkts=len(pkts), code_now=code_now, first_packet_rule=(code_now != spec_now))))
     return out
 
 
@@ -676,6 +683,10 @@ def check_trace_O(res, box, case):
                 if not any(j == i and rid in ans for (j, s, ans, _a) in mcasts):
                     what = "answer %s of a probe / single SRV,A,AAAA,NSEC question / stale QU question not multicast in the arrival block" % tr.uni.describe(rid)
                     sig = "C12:not-immediate"
+                    if cls == "now" and not info["probe"] and info["first_packet_rule"] and not info["code_now"]:
+                        what = ("truncated train of %d packets whose only question (SRV/A/AAAA/NSEC) is not in its first packet: answer %s is aggregated instead of "
+                                "being sent at once (the single-question test reads the first packet only)" % (info["npkts"], tr.uni.describe(rid)))
+                        sig = "C12:train-first-packet-question-rule"
             elif cls == "agg":
                 if not any(j >= i and c <= s <= c + 500 and rid in ans for (j, s, ans, _a) in mcasts):
                     what = "answer %s not multicast within 500 ms of the query" % tr.uni.describe(rid)
@@ -693,11 +704,32 @@ def check_trace_O(res, box, case):
                     sig = "C12:protected-late"
             if what:
                 res.violate(sig, what, dict(case, at_ms=c - T0))
+    # ---- the one-second clause for records that travel as ADDITIONALS of a reply (the sentence says "a record ... is not multicast
+    # again", whichever section).  The code never tests additionals (FINDING): reported for the reply of the query itself -- a datagram
+    # that carries the query's answer `rid` and, as an additional, a record seen less than a second before the query arrived
+    for (i, b, classes) in asms:
+        for rid, cls, info in classes:
+            if info["probe"] or info["dontcare"] or cls == "ucast":
+                continue
+            t_arr = info["t_last"]
+            for x in info["adds"]:
+                sx = info["seen_all"].get(x)
+                if sx is None or not (sx[0] <= t_arr and t_arr - sx[0] < 1000):
+                    continue
+                hit = next(((j, m) for (j, m, ans, add) in mcasts if j >= i and rid in ans and x in add and t_arr <= m < sx[0] + 1000), None)
+                if hit is not None:
+                    res.violate("C12:additional-remulticast-within-1s",
+                                "%s was seen multicast at %d ms; a query arrived at %d ms (%d ms later); its reply at %d ms carries %s as an additional of %s, "
+                                "%d ms after the sighting (additionals are never subject to the one-second protection)" % (
+                                    tr.uni.describe(x), sx[0] - T0, t_arr - T0, t_arr - sx[0], hit[1] - T0, tr.uni.describe(x), tr.uni.describe(rid),
+                                    hit[1] - sx[0]), dict(case, at_ms=hit[1] - T0))
     # ---- every multicast answer has a cause
     for (j, s, ans, _add) in mcasts:
         for rid in ans:
             ok = False
             d12 = None
+            finding = None
+            cause = None  # the query (its classification record) that justifies this transmission
             for (i, b, classes) in asms:
                 if i > j:
                     break
@@ -705,22 +737,64 @@ def check_trace_O(res, box, case):
                 for r2, cls, info in classes:
                     if r2 != rid:
                         continue
+                    just = False
                     if cls == "now" and i == j:
-                        ok = True
+                        just = True
+                    elif cls == "now" and i < j and not info["probe"] and info["first_packet_rule"] and not info["code_now"] and info["t_first"] + 20 <= s <= c + 500:
+                        # FINDING (the other half): the train's only question is not in its first packet, the code aggregates the answer
+                        finding = finding or ("C12:train-first-packet-question-rule",
+                                              "truncated train of %d packets whose only question (SRV/A/AAAA/NSEC) is not in its first packet: %s is aggregated and multicast at "
+                                              "%d ms instead of being sent at once at %d ms" % (info["npkts"], tr.uni.describe(rid), s - T0, c - T0))
                     elif cls == "qu-now" and i == j:
                         if info["in1s"] and not info["probe"]:
                             d12 = info
                         else:
-                            ok = True
-                    elif cls == "agg" and i < j and info["t_first"] + 20 <= s <= c + 500:
-                        ok = True
-                    elif cls == "prot" and i < j and info["t_first"] + 1020 <= s <= c + 1200 and s >= info["seen"][0] + 1000:
-                        ok = True
+                            just = True
+                    elif cls == "agg" and i <= j and info["t_last"] + 20 <= s <= c + 500:
+                        # (i == j: a held train answered in the block in which its hold ends, at least 400 ms after its last packet)
+                        just = True
+                    elif cls == "agg" and i == j and s < info["t_last"] + 20 and info["first_packet_rule"] and info["code_now"]:
+                        # FINDING: a train with several questions whose FIRST packet holds a single SRV/A/AAAA/NSEC question is answered at
+                        # once, all of it, without the 20-120 ms delay
+                        finding = finding or ("C12:train-first-packet-question-rule",
+                                              "truncated train of %d packets with several questions in all, completed by an untruncated packet at %d ms and answered in that very "
+                                              "block because its FIRST packet consists of a single SRV/A/AAAA/NSEC question: %s multicast without the 20-120 ms delay" % (
+                                                  info["npkts"], s - T0, tr.uni.describe(rid)))
+                    elif cls == "agg" and i < j and info["npkts"] > 1 and info["t_first"] + 20 <= s < info["t_last"] + 20 and s <= c + 500:
+                        # FINDING: the reply to a train completed by an untruncated packet is stamped with the FIRST packet's arrival, so a
+                        # timer that is already due sends it less than 20 ms after the query (its last packet) arrived
+                        finding = finding or ("C12:train-reply-before-jitter",
+                                              "%s answers a truncated train (first packet %d ms, last packet %d ms) and is multicast at %d ms, %d ms after the query was complete "
+                                              "(no earlier than 20 ms is required; the queue entry is stamped with the first packet's arrival)" % (
+                                                  tr.uni.describe(rid), info["t_first"] - T0, info["t_last"] - T0, s - T0, s - info["t_last"]))
+                    elif cls == "prot" and i < j and info["t_last"] + 20 <= s <= c + 1200 and s >= info["seen"][0] + 1000:
+                        just = True
                     elif cls == "free" and i <= j and c <= s <= c + 1200:
-                        ok = True
+                        just = True
                     elif info["dontcare"]:
-                        ok = True
+                        just = True
+                    if just and not ok:
+                        ok, cause = True, (i, info)
             if ok:
+                # The sentence on its own words: the transmission has a cause, but for ANOTHER query that had arrived by then (non-probe,
+                # QM) the host had seen this record less than a second before that query arrived -- "is not multicast again until at least
+                # one second after that sighting".  The code does not hold back a group that an earlier query queued (FINDING).
+                if not cause[1]["probe"]:
+                    for (i2, b2, classes2) in asms:
+                        if i2 > j or i2 == cause[0]:
+                            continue
+                        hit = next((inf2 for (r2, cls2, inf2) in classes2 if r2 == rid and cls2 == "prot" and not inf2["probe"]
+                                    and inf2["t_last"] <= s < inf2["seen"][0] + 1000), None)
+                        if hit is not None:
+                            res.violate("C12:pending-batch-remulticast-within-1s",
+                                        "%s was seen multicast at %d ms; a query asking for it arrived at %d ms (%d ms later, classified 'seen in the last second'); "
+                                        "the reply to an EARLIER query (handled at %d ms, group already pending) multicasts it at %d ms, %d ms after the sighting" % (
+                                            tr.uni.describe(rid), hit["seen"][0] - T0, hit["t_last"] - T0, hit["t_last"] - hit["seen"][0],
+                                            blocks[cause[0]]["t"] - T0, s - T0, s - hit["seen"][0]), dict(case, at_ms=s - T0))
+                            break
+                continue
+            if finding is not None:
+                res.violate(finding[0], finding[1], dict(case, at_ms=s - T0))
                 continue
             held = next((info for (i, b2, classes) in asms if i < j for (r2, cls, info) in classes
                          if r2 == rid and cls == "prot" and info["held_sighting"]
@@ -751,8 +825,8 @@ def trace_case(seed, sc_no, box):
 
 def run_trace_stream(ctx, res, n, only=None):
     lines, boxes = [], []
-    # n ordinary scenarios, plus n/5 in which services are unregistered while answers are queued (numbered from UNREG_BASE)
-    todo = only if only is not None else [(ctx["seed"], k) for k in range(n)] + [(ctx["seed"], UNREG_BASE + k) for k in range(n // 5)]
+    # n ordinary scenarios, plus n/8 in which services are unregistered while answers are queued (numbered from UNREG_BASE)
+    todo = only if only is not None else [(ctx["seed"], k) for k in range(n)] + [(ctx["seed"], UNREG_BASE + k) for k in range(n // 8)]
     for (seed, sc_no) in todo:
         box = run_scenario(seed, sc_no)
         if "tr" not in box:
@@ -835,6 +909,8 @@ def run_corpus(ctx, res):
             run_d12(res)
         elif kind == "q":
             replay_queue_ops(res, body["delayed"], body["ops"])
+        elif kind == "script":
+            run_script(res, body)
 
 
 def run_d12(res):
@@ -876,6 +952,72 @@ def run_d12(res):
         b["obs"] = R.block_obs(tr, b)
     res.evaluations += 1
     check_trace_O(res, box, {"stream": "d12", "services": [("s0._a._tcp.local.", "h0.local.", 3, 3)], "actions": box["actions"]})
+
+
+def run_script(res, body):
+    """a fixed scenario (corpus kind "script"): one service `s0._a._tcp.local.` on `h0.local.` (10.0.0.1, TTLs 120/4500), registered 5 s
+    before `t0`; actions, times relative to t0:  ["q", t, source, [[name, type], ...], qu, tc=false]  |  ["poke", t, name, type]  (the
+    host sees the service's record of that name/type multicast by somebody else at t); "draws": the library's random draws, in order"""
+    import socket
+
+    sim = vsim.Sim(seed="script", maxdelay=0)
+    if body.get("draws"):
+        sim.forced_draws = iter(list(body["draws"]))
+    box = {}
+
+    async def main(sim):
+        from zeroconf import ServiceInfo
+
+        host = sim.make_host("A", "10.0.0.1")
+        zc = host.zc
+        await zc.async_wait_for_start()
+        info = ServiceInfo("_a._tcp.local.", "s0._a._tcp.local.", 80, addresses=[socket.inet_aton("10.0.0.1")], server="h0.local.")
+        uni = R.Universe()
+        R.seed_universe(uni, [info])
+        t = await zc.async_register_service(info)
+        await t
+        await sim.sleep_ms(5000)
+        tr = R.Trace(sim, host, uni)
+        tr.install()
+        box.update(tr=tr, uni=uni, infos=[info], zc=zc)
+        t0 = sim.now()
+        rng = C.rng_for(0, "c12-script")
+        qid = 100
+        for act in body["actions"]:
+            await sim.sleep_until(t0 + act[1])
+            if act[0] == "q":
+                qid += 1
+                data, _q, _u = R.build_query(rng, [info], uni, qid, questions=[tuple(x) for x in act[3]], qus=[bool(act[4])] * len(act[3]), known_p=0,
+                                             tc=bool(act[5]) if len(act) > 5 else False)
+                host.deliver(data, (act[2], 5353))
+            elif act[0] == "poke":
+                r = next(r for r in uni.recs if r.name.lower() == act[2].lower() and r.type == act[3])
+                e = R.with_ttl(r, int(r.ttl))
+                e.created = float(sim.loop.ms)
+                zc.cache.async_add_records([e])
+                tr.pokes.append((sim.loop.ms, uni.id(r)))
+        await sim.sleep_ms(4000)
+        box["end_t"] = sim.loop.ms
+        tr.uninstall()
+        await vsim.close_host(host)
+
+    sim.run(main)
+    tr = box["tr"]
+    evs = []
+    for b in tr.blocks:
+        b["draws_tc"] = any(lo == 400 for (lo, hi, v) in b["draws"])
+        evs.append(R.block_line(tr, box["zc"], b))
+        b["obs"] = R.block_obs(tr, b)
+    res.evaluations += 1
+    case = {"stream": "script", "actions": body["actions"], "draws": body.get("draws")}
+    if C.DRIVER.exists():
+        try:
+            m = C.run_driver(["c12run %d %s" % (len(evs), " ".join(evs))])[0].split(" | ")
+            if not m[0].startswith("ok") or [x for x in m[1:] if x != ""] != [b["obs"] for b in tr.blocks]:
+                res.disagree("c12run", case, [b["obs"] for b in tr.blocks][:6], m[:7])
+        except C.DriverUnavailable:
+            pass
+    check_trace_O(res, box, case)
 
 
 class _Result(C.Result):
@@ -921,6 +1063,8 @@ def replay(body):
         res.violations = [v for v in res.violations if all(v["case"].get(k) == case.get(k) for k in case)]
     elif case.get("stream") == "q":
         replay_queue_ops(res, case["delayed"], case["ops"])
+    elif case.get("stream") == "script":
+        run_script(res, case)
     else:
         return {"violates": None, "note": "unknown case"}
     return {"violates": bool(res.violations), "violations": [dict(sig=v["sig"], what=v["what"]) for v in res.violations[:5]],
